@@ -41,6 +41,10 @@ def tiered(fn):
 def dyadic_case(draw, max_n=256):
     c = draw(base_case(max_n))
     c['c'] = draw(st.sampled_from([1.0, -1.0])) * 2.0 ** draw(st.integers(-8, 8))
+    if c['sig'].get('dtype') in ('f2', 'f4', 'i2') and draw(st.booleans()):
+        # narrow storage: large factors (squares beyond the range of the narrow type) and the SD rule, whose metric squares
+        c['c'] = draw(st.sampled_from([1.0, -1.0])) * 2.0 ** draw(st.integers(6, 8))
+        c['opts'] = {'stop_method': 'sd', 'sd_thresh': draw(st.sampled_from([0.05, 0.1, 0.2])), 'env_step_size': 1}
     return c
 
 
@@ -82,7 +86,8 @@ def oracle_dyadic(case, rec):
     c = case['c']
     kind = 'negative' if c < 0 else 'positive'
     a, fa = run_imf(emd, x, case, 'dyadic')
-    b, fb = run_imf(emd, c * x, case, 'dyadic')
+    xf = x.astype(float)          # c*x is formed exactly in float64 whatever the storage dtype of x
+    b, fb = run_imf(emd, c * xf, case, 'dyadic')
     if (a is None) != (b is None):
         raise Violation('C02/dyadic/get_next_imf/convergence-differs/' + kind, 'c=%r' % c)
     nt = False
@@ -95,7 +100,7 @@ def oracle_dyadic(case, rec):
         nt = not np.array_equal(a, x)
     t = 1e-8
     A = run_sift(emd, x, case, t, 'dyadic')
-    B = run_sift(emd, c * x, case, abs(c) * t, 'dyadic')
+    B = run_sift(emd, c * xf, case, abs(c) * t, 'dyadic')
     if (A is None) != (B is None):
         raise Violation('C02/dyadic/sift/convergence-differs/' + kind, 'c=%r' % c)
     if A is not None:
@@ -106,6 +111,16 @@ def oracle_dyadic(case, rec):
                             'c=%r max dev %.3g' % (c, np.abs(B - c * A).max() / abs(c)))
         nt = nt or A.shape[1] >= 2
         rec.cls('K=%s' % (A.shape[1] if A.shape[1] < 5 else '5+'))
+        if x.dtype != np.float64:
+            # the scaled signal stored in the same narrow dtype, when that is exact (no overflow / underflow of the values)
+            with np.errstate(over='ignore'):
+                narrow = (c * xf).astype(x.dtype)
+            if np.array_equal(narrow.astype(float), c * xf):
+                Bn = run_sift(emd, narrow, case, abs(c) * t, 'dyadic')
+                if Bn is None or Bn.shape != B.shape or not np.array_equal(Bn, B):
+                    raise Violation('C02/dyadic/sift/scaled-narrow-dtype-input-differs/%s' % x.dtype,
+                                    'c=%r: the same values stored as %s and as float64 decompose differently' % (c, x.dtype))
+                rec.cls('scaled input also in ' + str(x.dtype))
     rec.cls(kind)
     rec.cls('stop=' + case['opts']['stop_method'])
     return nt
@@ -138,13 +153,13 @@ def oracle_real(case, rec):
     c = case['c']
     t = 1e-8
     A = run_sift(emd, x, case, t, 'real')
-    B = run_sift(emd, c * x, case, abs(c) * t, 'real')
+    B = run_sift(emd, c * x.astype(float), case, abs(c) * t, 'real')
     if A is None or B is None:
         raise Discard('convergence error (limit decisions are discontinuous)')
     good = compare_prefix(rec, 'real', A, B / c, x, case, 'c=%r' % c)
     # the single extraction as well (its first layer is well conditioned, or compare_prefix would have discarded)
     a, fa = run_imf(emd, x, case, 'real')
-    b, fb = run_imf(emd, c * x, case, 'real')
+    b, fb = run_imf(emd, c * x.astype(float), case, 'real')
     if a is not None and b is not None:
         dev = np.abs(a - b / c).max() / (np.abs(x).max() or 1.0)
         if dev > 1e-6:
